@@ -24,17 +24,26 @@ def deliver(pid, v):
 def demo_info(pid, v):
     src = open(os.path.join(deliver(pid, v), "demo_test.go")).read()
     head = "\n".join(src.splitlines()[:6])
-    m = re.search(r"([\w./-]*verifdemo_\w*_test\.go)", head)
-    dest = m.group(1) if m else None
-    m2 = re.search(r"-run\s+['\"]?([\w|^$]+)['\"]?\s+(\./[\w/.-]+)", head)
-    run, pkg = (m2.group(1), m2.group(2)) if m2 else (None, None)
-    if dest and "/" not in dest:
-        # only a file name: take the package directory from the run command
-        dest = os.path.join(pkg.lstrip("./"), dest) if pkg else None
+    dest = None
+    m = re.search(r"([\w./-]*/verifdemo_\w*_test\.go)", head)
+    if m:
+        dest = m.group(1)
+    else:
+        m = re.search(r"in (?:package directory )?([\w./-]+?)/? as (verifdemo_\w*_test\.go)", head)
+        if m:
+            dest = os.path.join(m.group(1), m.group(2))
+    mr = re.search(r"-run\s+['\"]?([\w|^$]+)", head)
+    run = mr.group(1) if mr else "VerifDemo"
+    mp = re.search(r"\s(\./[\w/.-]+)", head)
+    pkg = mp.group(1) if mp else None
+    if not dest:
+        mf = re.search(r"(verifdemo_\w*_test\.go)", head)
+        if mf and pkg:
+            dest = os.path.join(pkg.lstrip("./"), mf.group(1))
     if dest and not pkg:
         pkg = "./" + os.path.dirname(dest)
-    if not run:
-        run = "VerifDemo"
+    if dest:
+        dest = dest.lstrip("./")
     return dest, run, pkg
 
 
